@@ -1,9 +1,9 @@
 CONSTANTS
-  Alphabet <- L1
-  Core <- L1Core
-  Mid <- L1Mid
-  MaxAll = 2
-  MaxMid = 3
+  Alphabet <- LB
+  Core <- LBCore
+  Mid <- LBCore
+  MaxAll = 4
+  MaxMid = 4
   MaxCore = 4
   Wrappers <- NoWrap
   MaxWrap = 0
